@@ -527,3 +527,113 @@ def decorated_methods(run):
                   clause='proposals on the %s include every source-defined attribute CPython finds [missing %r]' % (what, missing), path=path)
             core.RUN.concretise = None
     core.explore(lambda: None, lambda p, out: go(p))
+
+
+PKG_TREE = {
+    'pkg/__init__.py': '',
+    'pkg/base.py': 'class _Base(object):\n    kind = 1\n    def run(self):\n        self.state = 1\n        return self\n'
+                   'class Helper(object):\n    def assist(self):\n        self.helped = True\n_registry = {}\npublic_name = 1\n',
+    'pkg/sub/__init__.py': '',
+    'pkg/sub/sibling.py': 'from ..base import _Base\nclass Mid(_Base):\n    mid_attr = 2\n    def mid(self):\n        self.mid_state = 3\n',
+    'pkg/sub/deep/__init__.py': '',
+}
+BASE_NAMES = {'kind', 'run', 'state'}
+HELPER_NAMES = {'assist', 'helped'}
+MID_NAMES = {'mid_attr', 'mid', 'mid_state'}
+# (file of the edited text, import line, base expression, names the instance must offer besides its own)
+PKG_FORMS = [
+    ('pkg/sub/leaf.py', 'from .. import base', 'base._Base', BASE_NAMES),
+    ('pkg/sub/leaf.py', 'from ..base import _Base', '_Base', BASE_NAMES),
+    ('pkg/sub/leaf.py', 'from ..base import _Base as B, Helper', 'B, Helper', BASE_NAMES | HELPER_NAMES),
+    ('pkg/sub/leaf.py', 'from . import sibling', 'sibling.Mid', BASE_NAMES | MID_NAMES),
+    ('pkg/sub/leaf.py', 'from .sibling import Mid', 'Mid', BASE_NAMES | MID_NAMES),
+    ('pkg/sub/deep/leaf.py', 'from ... import base', 'base._Base', BASE_NAMES),
+    ('pkg/sub/deep/leaf.py', 'from ...base import _Base, Helper', 'Helper, _Base', BASE_NAMES | HELPER_NAMES),
+    ('pkg/sub/deep/leaf.py', 'from .. import sibling', 'sibling.Mid', BASE_NAMES | MID_NAMES),
+    ('pkg/sub/deep/leaf.py', 'from ..sibling import Mid as M', 'M', BASE_NAMES | MID_NAMES),
+    ('pkg/leaf.py', 'from . import base', 'base._Base', BASE_NAMES),
+    ('pkg/leaf.py', 'from .base import *\nfrom .base import _Base', '_Base, Helper', BASE_NAMES | HELPER_NAMES),
+    ('main.py', 'import pkg.base', 'pkg.base._Base', BASE_NAMES),
+    ('main.py', 'import pkg.sub.sibling as sb', 'sb.Mid', BASE_NAMES | MID_NAMES),
+]
+
+PKG_REPLAY = '''import sys, os, tempfile, shutil; sys.path.insert(0, %(repo)r)
+from supp.assistant import assist
+from supp.project import Project
+d = tempfile.mkdtemp(prefix='supp-c06-')
+try:
+    for rel, text in %(tree)r.items():
+        os.makedirs(os.path.dirname(os.path.join(d, rel)), exist_ok=True)
+        open(os.path.join(d, rel), 'w').write(text)
+    text = %(text)r
+    print(text)
+    got = assist(Project([d]), text, %(pos)r, os.path.join(d, %(fname)r))[1]
+    missing = sorted(set(%(want)r) - set(got))
+    print('proposals:', [n for n in got if not n.startswith('__')])
+    print('REPRODUCED: attributes Python finds on the object are not proposed: %%r' %% missing if missing else 'not reproduced')
+finally:
+    shutil.rmtree(d, ignore_errors=True)
+'''
+
+
+@harness(['C06'], 'supp.assistant.assist on obj.attr [bases in other modules of a package tree: relative imports of every level, private names]',
+         bounded='a package with a subpackage and a sub-subpackage; bases named with a leading underscore; 13 import forms (from .. import module, '
+                 'from ..module import name, aliases, star import next to an explicit one, sibling modules that re-derive the base, absolute dotted '
+                 'imports) from files at depth 0..3; receivers: an instance, self inside a method; and completion on the module itself')
+def hierarchies_in_packages(run):
+    """BOUNDED: the instance of a class whose bases come from other modules of its package - through relative imports that climb one, two or
+    three levels, and under names with a leading underscore - offers every class-body name and every attribute assigned through self along the
+    MRO; a module reached by name offers its underscore names too (only a star import leaves them out).  Not counted as proved."""
+    import os
+    import shutil
+    import tempfile
+    import supp.assistant as A
+    import supp.project as Pj
+
+    def go(path):
+        top = tempfile.mkdtemp(prefix='supp-c06-')
+        try:
+            for rel, text in PKG_TREE.items():
+                os.makedirs(os.path.dirname(os.path.join(top, rel)), exist_ok=True)
+                with open(os.path.join(top, rel), 'w') as f:
+                    f.write(text)
+            for fname, imp, ref, inherited in PKG_FORMS:
+                head = '%s\nclass Leaf(%s):\n    own = 0\n    def probe(self):\n        self.probed = 1\n' % (imp, ref)
+                want = set(inherited) | {'own', 'probe', 'probed'}
+                for label, tail in (('instance', 'obj = Leaf()\nobj.'), ('self', '        return self.')):
+                    text = head + tail
+                    lines = text.split('\n')
+                    pos = (len(lines), len(lines[-1]))
+                    try:
+                        got = set(A.assist(Pj.Project([top]), text, pos, os.path.join(top, fname))[1])
+                    except Exception as e:
+                        got = {'<raised %s>' % type(e).__name__}
+                    missing = sorted(want - got)
+                    if missing:
+                        core.RUN.concretise = lambda model, ob, text=text, pos=pos, fname=fname, want=sorted(want): {'input': text, 'script': PKG_REPLAY % {
+                            'repo': core.REPO, 'tree': PKG_TREE, 'text': text, 'pos': pos, 'fname': fname, 'want': want}}
+                    prove('%s | %s | class Leaf(%s): %s' % (fname, imp.replace('\n', '; '), ref, label), not missing,
+                          clause='proposals include the class-body names and self-assigned attributes along the MRO [missing %r]' % (missing,), path=path)
+                    core.RUN.concretise = None
+            # a module reached by name shows its underscore names as well
+            for fname, text, want in (('main.py', 'import pkg.base\npkg.base.', {'_Base', 'Helper', '_registry', 'public_name'}),
+                                      ('pkg/sub/leaf.py', 'from .. import base\nbase.', {'_Base', 'Helper', '_registry', 'public_name'}),
+                                      ('pkg/leaf.py', 'from .base import *\n', {'Helper', 'public_name'})):
+                lines = text.split('\n')
+                pos = (len(lines), len(lines[-1]))
+                try:
+                    got = set(A.assist(Pj.Project([top]), text, pos, os.path.join(top, fname))[1])
+                except Exception as e:
+                    got = {'<raised %s>' % type(e).__name__}
+                missing = sorted(want - got)
+                extra = sorted({'_Base', '_registry'} & got) if 'import *' in text else []
+                if missing or extra:
+                    core.RUN.concretise = lambda model, ob, text=text, pos=pos, fname=fname, want=sorted(want): {'input': text, 'script': PKG_REPLAY % {
+                        'repo': core.REPO, 'tree': PKG_TREE, 'text': text, 'pos': pos, 'fname': fname, 'want': want}}
+                prove('module-names | %s | %s' % (fname, text.replace('\n', '; ')), not missing and not extra,
+                      clause='a module reached by name offers every name bound in it, underscore names too; a star import leaves those out '
+                             '[missing %r, wrongly there %r]' % (missing, extra), path=path)
+                core.RUN.concretise = None
+        finally:
+            shutil.rmtree(top, ignore_errors=True)
+    core.explore(lambda: None, lambda p, out: go(p))
